@@ -2341,7 +2341,7 @@ template< size_t L>
    // test if string is already full
    if (mLength == L)
       return *this;
-   return append( std::string( count, ch));
+   return append( std::string( std::min( count, L - mLength), ch));
 } // FixedString< L>::append
 
 
